@@ -24,6 +24,8 @@ CHECKS.update({
  'C14': ('Kernel agreement incl. created-mode edges (dirty iff the path exists) and the ALWAYS pseudo-file (changed in every run); redo-ifcreate refuses an existing path and otherwise commits a created-mode edge; redo-always commits an edge to ALWAYS and stamps it changed in this run. "Exactly once per run with several parallel dependents" is NOT claimed.', DEPS_NOTE, 'DESIGN.md §5 C14'),
  'C17': ('is_source / is_target never both, pseudo files neither, existing non-generated file is a source, generated file as recorded is a target (every row x filesystem state); redo-ood runs the same kernel (agreement as in C01) and leaves every row as it found it (no commit). The over-approximation bounds relative to the builder are argued from the shared kernel, not separately decided.', DEPS_NOTE, 'DESIGN.md §5 C17'),
 })
+CHECKS['C13'] = ('For EVERY ASCII file name up to the length bound at every directory depth up to the bound, the candidate list produced by the real possible_do_files / DefaultDoFiles / RecursiveDoFilesState / path_splits MIR equals the order written in the property statement (do_dir, do_file, $2 base name, matched extension), and do_dir/(base_name+ext) is the target; find_do_file probes candidates in that order, stops at the first existing one, records an m-edge on it and a c-edge on every earlier candidate. The argv/$3/cwd construction inside start_self and redo-whichdo\'s printing are not yet encoded.',
+  'Targets absolute and lexically clean; non-ASCII names outside the alphabet; ouroboros plumbing stubbed. ' + TRUST, 'DESIGN.md §5 C13')
 NA = {
 }
 man = {
